@@ -666,3 +666,52 @@ Proof.
   - intros s0 t c. apply mu_dec.
   - apply (R_inv _ _ _ Hwf HR).
 Qed.
+
+(* ---------- every run without spurious wake-ups ends, and ends well ---------- *)
+From GV Require Import Progress.
+
+Lemma tstep_choice t c g l : c <> 1%nat -> tstep t c g l = tstep t 0 g l.
+Proof.
+  intros Hc. unfold tstep. destruct (at_ l); try reflexivity.
+  destruct (Nat.eqb_spec c 1); [contradiction|reflexivity].
+Qed.
+
+Lemma settled_quiescent s : settled glob loc tstep no_spurious s <-> quiescentB s.
+Proof.
+  unfold settled, quiescent, no_spurious. split; intros H t c Hc.
+  - apply H. apply negb_true_iff, Nat.eqb_neq. exact Hc.
+  - apply H. apply negb_true_iff, Nat.eqb_neq in Hc. exact Hc.
+Qed.
+
+Lemma pick_move s : (exists t c, no_spurious c = true /\ enabledB s t c) \/ settled glob loc tstep no_spurious s.
+Proof.
+  destruct (enabled_choice_dec glob loc tstep s 0) as [[t He]|Hn].
+  - left. exists t, 0%nat. split; [reflexivity|exact He].
+  - right. intros t c Hc [l [r [Hl Hs]]]. apply (Hn t). exists l, r. split; [exact Hl|].
+    rewrite <- Hs. symmetry. apply tstep_choice.
+    unfold no_spurious in Hc. apply negb_true_iff, Nat.eqb_neq in Hc. exact Hc.
+Qed.
+
+(* from every reachable state of a well-formed program a quiescent state is reached by a schedule
+   of at most mu(s) work-choices without any spurious wake-up *)
+Lemma eventually_settles n progs s : wf_prog n progs = true -> R n progs s ->
+  exists sc, sched_ok no_spurious sc /\ (length sc <= mu s)%nat /\
+             R n progs (runB s sc) /\ quiescentB (runB s sc).
+Proof.
+  intros Hwf HR.
+  destruct (settles glob loc tstep mu Inv Inv_step no_spurious (fun s0 t c => mu_dec s0 t c) pick_move s (R_inv _ _ _ Hwf HR))
+    as [sc [Hok [Hlen Hset]]].
+  exists sc. repeat split; auto.
+  - destruct HR as [sc0 ->]. exists (sc0 ++ sc). symmetry. apply run_app.
+  - apply settled_quiescent. exact Hset.
+Qed.
+
+(* ... and when every participant performs the same number K of generations unless it drops out
+   earlier, that state has every thread finished: every generation completes, every waiter returns *)
+Lemma eventually_finishes n progs K s : wf_prog n progs = true -> balanced K progs = true -> R n progs s ->
+  exists sc, sched_ok no_spurious sc /\ (length sc <= mu s)%nat /\ all_fin glob loc fin (runB s sc) = true.
+Proof.
+  intros Hwf Hb HR.
+  destruct (eventually_settles n progs s Hwf HR) as [sc [Hok [Hlen [HR' HQ]]]].
+  exists sc. repeat split; auto. apply (generation_completes n progs K); auto.
+Qed.
